@@ -140,8 +140,10 @@ def generate(seed, tier, prop):
         "fault_free": fault_free,
         "switch_engine": rng.random() < 0.15,
         "fault_kinds": sorted(rng.sample(["solve-nan", "solve-inf", "solve-partial-nan", "solve-garbage",
-                                          "infeasible", "tiny-budget", "no-feeder"],
-                                         rng.randint(1, 7))) if not fault_free else [],
+                                          "infeasible", "tiny-budget", "no-feeder", "no-t-feeder"],
+                                         rng.randint(1, 8))) if not fault_free else [],
+        # C14: "numba falls back when unavailable" - the availability flag of the setup module is a seam
+        "numba_unavailable": prop == "C14" and rng.random() < 0.15,
         "opt_keys": sorted(rng.sample(["friction_model", "nonlinear_method", "alpha", "tol", "iter",
                                        "ambient_temperature", "check_connectivity",
                                        "max_iter_colebrook", "unknown"], rng.randint(0, 9))),
@@ -338,6 +340,12 @@ class _Gen:
                 for (t, i) in self.meta["feeders"]:
                     pre.append({"op": "edit", "table": t, "index": i, "col": "in_service", "val": False})
                     post.append({"op": "edit", "table": t, "index": i, "col": "in_service", "val": True})
+            elif kind == "no-t-feeder" and self.meta.get("t_feeders") and len(self.meta["t_feeders"]) < len(self.meta["feeders"]):
+                # pressure is still fixed, no temperature is: the hydraulic stage converges, the thermal stage has
+                # nothing to start from (fails before its Newton loop)
+                for (t, i) in self.meta["t_feeders"]:
+                    pre.append({"op": "edit", "table": t, "index": i, "col": "in_service", "val": False})
+                    post.append({"op": "edit", "table": t, "index": i, "col": "in_service", "val": True})
         kw = self.calc_kw(tiny_budget=tiny)
         if self.prop == "C14" and not tiny and not force_plain:
             kw = self.opt_kw()
@@ -516,6 +524,8 @@ def model_resolve(user, call, fluid_name):
         opts["reuse_internal_data"] = False
     if opts["mode"] == "all":
         opts["mode"] = "sequential"
+    if not seams.SETUP_MOD.numba_installed:
+        opts["use_numba"] = False     # documented coupling: numba falls back when unavailable
     opts["fluid"] = fluid_name
     return opts
 
@@ -650,9 +660,14 @@ def execute(trace):
     fs = seams.SimFS()
     fs.install()
     seams.restore_defaults()
+    numba_flag = seams.SETUP_MOD.numba_installed
+    if trace.get("knobs", {}).get("numba_unavailable"):
+        seams.SETUP_MOD.numba_installed = False
+        res.count("probe:numba-unavailable")
     try:
         _execute(trace, res, prop, program, meta, ops, solver, fs)
     finally:
+        seams.SETUP_MOD.numba_installed = numba_flag
         solver.uninstall()
         fs.uninstall()
         leaked = seams.defaults_diff()
@@ -1026,6 +1041,10 @@ def _nonfinite_supplied(net, mode):
         elif "junction" in df and "mdot_kg_per_s" in rt:
             ins = df.in_service.values.astype(bool) if "in_service" in df else np.ones(len(df), bool)
             sup = np.array([j in supplied for j in df.junction.values], bool)
+            if el == "ext_grid" and "type" in df:
+                # an external grid that only fixes the temperature exchanges no mass: its mass flow is "not
+                # applicable" (like a temperature in a hydraulics-only run), not a missing result
+                ins = ins & (df["type"].values != "t")
             v = rt["mdot_kg_per_s"].values.astype(float)[ins & sup]
             if np.any(~np.isfinite(v)):
                 bad.append("%s.mdot_kg_per_s" % t)
@@ -1067,6 +1086,8 @@ def _check_options(res, net, model, oi, site, user, call, after_calc=False):
     for k, doc in sorted(DOCUMENTED.items()):
         if k in skip or k in user or k in call or k not in got:
             continue
+        if k == "use_numba" and not seams.SETUP_MOD.numba_installed:
+            continue   # documented coupling: falls back when numba is unavailable
         if ("iter" in user or "iter" in call) and k in STAGE_ITER:
             continue
         if got[k] != doc or isinstance(got[k], bool) != isinstance(doc, bool):
